@@ -30,10 +30,18 @@ def main(argv):
             return do_replay(pid, mod, rep, replay, tier, seed)
         return mod.run(rep, tier, seed)
     except common.Machinery as e:
+        if rep.violations:
+            # violations of the property were already found on this tree; a later machinery step (typically a self-test
+            # that exercises the real code) failing on the same broken tree must not turn the verdict into "exit 2"
+            print("note: a machinery step failed after violations had been found: %s" % str(e)[:300])
+            return rep.finish("run cut short by a machinery failure after violations had been found")
         print("MACHINERY FAILURE (%s): %s" % (pid, e))
         return 2
     except Exception:
         traceback.print_exc()
+        if rep.violations:
+            print("note: the harness raised after violations had been found")
+            return rep.finish("run cut short by a harness exception after violations had been found")
         print("MACHINERY FAILURE (%s): unexpected exception in the harness" % pid)
         return 2
 
